@@ -244,7 +244,11 @@ func genReq(t *rapid.T, spec *SysSpec, prof IngressProfile) *ReqSpec {
 			case h == "*":
 				h = "hooks.example.com"
 			case strings.HasPrefix(h, "*."):
-				h = "sub" + h[1:]
+				// a sub-domain, a deeper one, and the near misses: the bare domain,
+				// a longer name that merely ends in the domain's characters, the
+				// domain as a label of somebody else's name
+				d := h[2:]
+				h = rapid.SampledFrom([]string{"sub." + d, "sub." + d, "a.b." + d, "SUB." + strings.ToUpper(d) + ".:8443", d, "evil" + d, "evil-" + d + ":443", "x" + d + ".", d + ".attacker.test", "." + d}).Draw(t, "host.wild")
 			}
 			rs.Host = h
 		}
